@@ -312,8 +312,12 @@ let () =
 
 (* ------------------------------------------------------------------ grammar (C15) *)
 let () =
-  register "accepts" (function
+  register "accepts_plain" (function
     | [s] -> (match accepts token_table rules start_rule (explode s) with
+              | Some true -> "1" | Some false -> "0" | None -> "FUEL")
+    | _ -> "BADARGS");
+  register "accepts" (function
+    | [s] -> (match accepts_m token_table rules start_rule (explode s) with
               | Some true -> "1" | Some false -> "0" | None -> "FUEL")
     | _ -> "BADARGS");
   register "lex" (function
